@@ -36,6 +36,59 @@ fn cmd_letters(max: u32) {
         max, 2 * (max + 1), iso_ok, bij_only, first_bij.map(|x| x.to_string()).unwrap_or("null".into()), other.join(","));
 }
 
+fn roman_ref(mut n: u32, upper: bool) -> String {
+    let t = [(1000, "m"), (900, "cm"), (500, "d"), (400, "cd"), (100, "c"), (90, "xc"), (50, "l"), (40, "xl"), (10, "x"), (9, "ix"), (5, "v"), (4, "iv"), (1, "i")];
+    let mut s = String::new();
+    for (v, r) in t { while n >= v { s.push_str(r); n -= v; } }
+    if upper { s.to_uppercase() } else { s }
+}
+// C27 Eb: decimal / roman formatting against reference formatters, and the label dictionaries written by
+// PageLabel::to_dict / PageLabelTree::to_dict read by an independent object-level reader (ISO 32000-1 12.4.2, Table 159)
+fn cmd_labels(max: u32) {
+    use oxidize_pdf::objects::Object;
+    use oxidize_pdf::page_labels::{PageLabel, PageLabelTree};
+    let mut evaluated = 0u64; let mut bad: Vec<String> = vec![];
+    for n in 0..=max {
+        evaluated += 3;
+        for (style, want, nm) in [(PageLabelStyle::DecimalArabic, n.to_string(), "D"), (PageLabelStyle::LowercaseRoman, roman_ref(n, false), "r"), (PageLabelStyle::UppercaseRoman, roman_ref(n, true), "R")] {
+            let got = style.format(n);
+            if got != want && bad.len() < 6 { bad.push(format!("{{\"style\":\"{nm}\",\"n\":{n},\"real\":{},\"iso\":{}}}", js(&got), js(&want))); }
+        }
+    }
+    // independent reader of a label dictionary: (style name, prefix, start)
+    fn read_label(o: &Object) -> Option<(Option<String>, Option<String>, i64)> {
+        let Object::Dictionary(d) = o else { return None };
+        let s = match d.get("S") { Some(Object::Name(n)) => Some(n.clone()), None => None, _ => return None };
+        let p = match d.get("P") { Some(Object::String(p)) => Some(p.clone()), None => None, _ => return None };
+        let st = match d.get("St") { Some(Object::Integer(i)) => *i, None => 1, _ => return None };
+        Some((s, p, st))
+    }
+    let styles = [(PageLabelStyle::DecimalArabic, Some("D")), (PageLabelStyle::UppercaseRoman, Some("R")), (PageLabelStyle::LowercaseRoman, Some("r")),
+                  (PageLabelStyle::UppercaseLetters, Some("A")), (PageLabelStyle::LowercaseLetters, Some("a")), (PageLabelStyle::None, None)];
+    let prefixes: [Option<&str>; 5] = [None, Some("A-"), Some("(A) "), Some("\\"), Some("\u{e9}")];
+    let starts = [1u32, 5];
+    let mut labels: Vec<(PageLabel, (Option<String>, Option<String>, i64))> = vec![];
+    for (st, nm) in styles { for p in prefixes { for s0 in starts {
+        let mut l = PageLabel::new(st).starting_at(s0);
+        if let Some(p) = p { l = l.with_prefix(p); }
+        labels.push((l, (nm.map(|x| x.to_string()), p.map(|x| x.to_string()), s0 as i64)));
+    } } }
+    // every pair of labels on pages (0, 3): includes identical adjacent ranges (restart of numbering)
+    for (la, ea) in &labels { for (lb, eb) in &labels {
+        evaluated += 1;
+        let mut t = PageLabelTree::new();
+        t.add_range(0, la.clone()); t.add_range(3, lb.clone());
+        let d = t.to_dict();
+        let ok = match d.get("Nums") {
+            Some(Object::Array(v)) => v.len() == 4 && v[0] == Object::Integer(0) && v[2] == Object::Integer(3)
+                && read_label(&v[1]).as_ref() == Some(ea) && read_label(&v[3]).as_ref() == Some(eb),
+            _ => false,
+        };
+        if !ok && bad.len() < 6 { bad.push(format!("{{\"what\":\"label tree dictionary\",\"range0\":{:?},\"range3\":{:?},\"nums\":{}}}", js(&format!("{:?}", ea)), js(&format!("{:?}", eb)), js(&format!("{:?}", d.get("Nums"))))); }
+    } }
+    println!("{{\"cmd\":\"labels\",\"bound\":\"n in 0..={max} for decimal/roman; all ordered pairs of 60 label definitions (6 styles x 5 prefixes x 2 starts) at pages 0 and 3\",\"evaluated\":{},\"disagreements\":[{}]}}", evaluated, bad.join(","));
+}
+
 fn cmd_enc_tables() {
     // C25 Ec: TextEncoding::{encode_strict, encode, decode} on every one-character string / one-byte slice
     let mut evaluated = 0u64; let mut bad: Vec<String> = vec![]; let mut known: Vec<String> = vec![]; let mut silent_n = 0u64;
@@ -234,6 +287,7 @@ fn main() {
         Some("a85hex") => cmd_a85hex(args.get(2).and_then(|s| s.parse().ok()).unwrap_or(5)),
         Some("a85hex-roundtrip") => cmd_a85hex_roundtrip(args.get(2).and_then(|s| s.parse().ok()).unwrap_or(4)),
         Some("fmt") => cmd_fmt(),
+        Some("labels") => cmd_labels(args.get(2).and_then(|s| s.parse().ok()).unwrap_or(5000)),
         Some("lru") => cmd_lru(args.get(2).and_then(|s| s.parse().ok()).unwrap_or(6)),
         Some("decode") => {
             // decode <FilterName> <hex bytes> [max]: run the real decoder on one input
